@@ -46,6 +46,9 @@ struct Scn {
     /// the datagrams carry the flow id of the STREAM that runs on the same connection (the id space is shared: a UDP
     /// bind even requires it); what happens to a datagram must never happen to the stream of the same number
     same_flow: bool,
+    /// the receiving endpoint's connection task does not get to run until the whole burst has arrived at its socket (a
+    /// busy executor): it then finds a long backlog ready at once
+    backlog: bool,
 }
 
 fn mk(d: &D) -> Datagram {
@@ -82,12 +85,20 @@ fn exec(sc: &Scn, render: bool) -> RunOutput {
     let mut seen_consumed = 0usize;
     let mut horizon = false;
     let mut phase = 0;
+    let mut hold_b = sc.backlog;
     loop {
         if w.sim.steps >= 20_000 {
             horizon = true;
             break;
         }
-        let en = w.sim.enabled();
+        let mut en = w.sim.enabled();
+        if hold_b {
+            en.retain(|s| !matches!(s, Step::Poll(i) if w.sim.tasks[*i].name == "taskB"));
+            if en.is_empty() {
+                hold_b = false;
+                continue;
+            }
+        }
         if en.is_empty() {
             if sc.late_reader && phase == 0 {
                 phase = 1;
@@ -303,7 +314,7 @@ pub fn run(args: &Args) -> Report {
             }
             // a well-formed datagram after the sweep point: refused ones must have no other effect
             list.push(D { flow: 42, host: b"ok".to_vec(), port: 7, data: b"after".to_vec() });
-            let sc = Scn { name: format!("field sweep host_len={hl} payload_len={pl}"), list, buf: 8, late_reader: false, with_stream: false, cap: 0, two_readers: false, same_flow: false };
+            let sc = Scn { name: format!("field sweep host_len={hl} payload_len={pl}"), list, buf: 8, late_reader: false, with_stream: false, cap: 0, two_readers: false, same_flow: false, backlog: false };
             cases.push(Case { try_unbounded: false, max_k: u32::MAX, label: sc.name.clone(), exec: Box::new(move |r| exec(&sc, r)) });
         }
     }
@@ -315,7 +326,7 @@ pub fn run(args: &Args) -> Report {
                 for cap in if thorough { vec![0usize, 1, 2] } else { vec![0usize, 1] } {
                     let n = buf + 2;
                     let list = (0..n).map(|i| D { flow: 100 + (i as u32 % 2), host: vec![b'h', i as u8], port: 9, data: vec![i as u8; 1 + i % 3] }).collect();
-                    let sc = Scn { name: format!("burst of {n} into buffer {buf} late_reader={late} with_stream={with_stream} cap={cap}"), list, buf, late_reader: late, with_stream, cap, two_readers: false, same_flow: false };
+                    let sc = Scn { name: format!("burst of {n} into buffer {buf} late_reader={late} with_stream={with_stream} cap={cap}"), list, buf, late_reader: late, with_stream, cap, two_readers: false, same_flow: false, backlog: false };
                     cases.push(Case { try_unbounded: false, max_k: u32::MAX, label: sc.name.clone(), exec: Box::new(move |r| exec(&sc, r)) });
                 }
             }
@@ -326,14 +337,23 @@ pub fn run(args: &Args) -> Report {
         for late in [false, true] {
             let n = buf + 2;
             let list = (0..n).map(|i| D { flow: STREAM_FLOW, host: vec![b's', i as u8], port: 9, data: vec![i as u8; 1 + i % 3] }).collect();
-            let sc = Scn { name: format!("burst of {n} into buffer {buf} late_reader={late} on the flow id of the stream sharing the connection"), list, buf, late_reader: late, with_stream: true, cap: 0, two_readers: false, same_flow: true };
+            let sc = Scn { name: format!("burst of {n} into buffer {buf} late_reader={late} on the flow id of the stream sharing the connection"), list, buf, late_reader: late, with_stream: true, cap: 0, two_readers: false, same_flow: true, backlog: false };
             cases.push(Case { try_unbounded: false, max_k: u32::MAX, label: sc.name.clone(), exec: Box::new(move |r| exec(&sc, r)) });
         }
+    }
+    // ---- a long backlog: the receiving task is kept from running until 1100 datagrams (and the Connect of a stream
+    // behind them) have arrived; the buffer holds them all, so every one is owed to the application, and the stream
+    // completes
+    {
+        let n = 1100usize;
+        let list = (0..n).map(|i| D { flow: 300 + (i as u32 % 2), host: vec![b'b', (i % 251) as u8, (i / 251) as u8], port: 9, data: vec![(i % 256) as u8; 1 + i % 3] }).collect();
+        let sc = Scn { name: format!("backlog: {n} datagrams and a stream request arrive before the receiving task runs, buffer 2048"), list, buf: 2048, late_reader: false, with_stream: true, cap: 0, two_readers: false, same_flow: false, backlog: true };
+        cases.push(Case { try_unbounded: false, max_k: 0, label: sc.name.clone(), exec: Box::new(move |r| exec(&sc, r)) });
     }
     // ---- two application tasks waiting in get_datagram at once: each datagram that arrives must reach one of them
     for n in [2usize] {
         let list = (0..n).map(|i| D { flow: 200 + i as u32, host: vec![], port: 1, data: vec![i as u8] }).collect();
-        let sc = Scn { name: format!("{n} datagrams for two tasks waiting in get_datagram at the same time"), list, buf: 4, late_reader: false, with_stream: false, cap: 0, two_readers: true, same_flow: false };
+        let sc = Scn { name: format!("{n} datagrams for two tasks waiting in get_datagram at the same time"), list, buf: 4, late_reader: false, with_stream: false, cap: 0, two_readers: true, same_flow: false, backlog: false };
         cases.push(Case { try_unbounded: false, max_k: u32::MAX, label: sc.name.clone(), exec: Box::new(move |r| exec(&sc, r)) });
     }
     let plan = Plan {
